@@ -44,6 +44,7 @@ type Config interface {
 	Clear()
 	Shrink()
 	Commit()
+	Outdate()
 }
 
 type config struct {
@@ -59,6 +60,8 @@ type config struct {
 	tcpbackends *hatypes.TCPBackends
 	tcpservices *hatypes.TCPServices
 	userlists   *hatypes.Userlists
+	// outdated is true if the files on disk might not reflect the last committed state
+	outdated bool
 }
 
 type options struct {
@@ -146,7 +149,7 @@ func (c *config) SyncConfig() {
 // config file. This func doesn't change model state, except the
 // link to the tcp services maps.
 func (c *config) WriteTCPServicesMaps() error {
-	if !c.tcpservices.Changed() {
+	if !c.tcpservices.Changed() && !c.outdated {
 		return nil
 	}
 	mapBuilder := hatypes.CreateMaps(c.global.MatchOrder)
@@ -166,7 +169,7 @@ func (c *config) WriteTCPServicesMaps() error {
 // config file. This func doesn't change model state, except the
 // link to the frontend maps.
 func (c *config) WriteFrontendMaps() error {
-	if c.frontend.Maps != nil && !c.hosts.Changed() {
+	if c.frontend.Maps != nil && !c.hosts.Changed() && !c.outdated {
 		// TODO Maps!=nil just to preserve the current behavior. Check if this can be removed.
 		// hosts are clean, maps are updated
 		return nil
@@ -353,12 +356,16 @@ func (c *config) WriteFrontendMaps() error {
 // link to the backend maps.
 func (c *config) WriteBackendMaps() error {
 	// TODO rename HostMap types to HAProxyMap
-	if !c.backends.Changed() {
+	if !c.backends.Changed() && !c.outdated {
 		// backends are clean, maps are updated
 		return nil
 	}
+	backends := c.backends.ItemsAdd()
+	if c.outdated {
+		backends = c.backends.Items()
+	}
 	mapBuilder := hatypes.CreateMaps(c.global.MatchOrder)
-	for _, backend := range c.backends.ItemsAdd() {
+	for _, backend := range backends {
 		if backend.NeedACL() {
 			mapsPrefix := c.options.mapsDir + "/_back_" + backend.ID
 			pathsMap := mapBuilder.AddMap(mapsPrefix + "_idpath.map")
@@ -441,6 +448,9 @@ func (c *config) Clear() {
 func (c *config) Shrink() {
 	c.hosts.Shrink()
 	c.backends.Shrink()
+	if c.outdated {
+		c.backends.ChangedAllShards()
+	}
 }
 
 func (c *config) Commit() {
@@ -459,6 +469,14 @@ func (c *config) Commit() {
 	c.tcpservices.Commit()
 	c.userlists.Commit()
 	c.acmeData.Storages().Commit()
+	c.outdated = false
+}
+
+// Outdate should be called if an update failed after the changes were committed.
+// The files on disk are in an unknown state, so the next update should write all
+// of them again, despite of what was changed, and should also reload haproxy.
+func (c *config) Outdate() {
+	c.outdated = true
 }
 
 func (c *config) hasCommittedData() bool {
@@ -468,5 +486,5 @@ func (c *config) hasCommittedData() bool {
 	// its old state, and whenever a clear is performed such clone is
 	// cleaned as well. So a globalOld != nil is a fast and safe way to
 	// know if there is committed data.
-	return c.globalOld != nil
+	return c.globalOld != nil && !c.outdated
 }
